@@ -378,7 +378,8 @@ func (s *Sched) exit(t *thread) {
 func (s *Sched) finish() {
 	s.once.Do(func() {
 		for _, o := range s.threads {
-			if !o.done && !o.daemon {
+			// a thread waiting for the virtual clock is not deadlocked: time could still advance
+			if !o.done && !o.daemon && o.op != "sleep" {
 				s.res.Blocked = append(s.res.Blocked, o.name+"@"+o.op)
 			}
 		}
@@ -422,7 +423,8 @@ func Join() {
 	me := s.cur
 	Point("join", nil, func() bool {
 		for _, o := range s.threads {
-			if o != me && !o.done && !o.daemon {
+			// threads parked on the virtual clock (background tickers of the code under test) are not joined
+			if o != me && !o.done && !o.daemon && o.op != "sleep" {
 				return false
 			}
 		}
